@@ -35,9 +35,12 @@ def exit_verdict_flags(ctx, rep, rule):
         cname = c[0] if c else None
         site = "%s return on the %s path" % (e.where, cname or 'empty-scheduler')
         if e.data['phase'] == 'NoTasks' and not e.st.a('nstart', 0):
-            ok = e.data['val'] == T.TRUE and e.data['tf'] in (None, 'unset') and e.data['cf'] in (None, 'unset')
-            rep.check(ok, rule, site, fn, "`%s` before any start" % src(stmt_of(e.node)),
-                      "an empty scheduler must report success and no cause", trace(e.st))
+            ok = e.data['val'] == T.TRUE and e.data['tf'] == 'unset' and e.data['cf'] == 'unset'
+            rep.check(ok, rule, site, fn, "`%s` before any start, with %s %s and %s %s"
+                      % (src(stmt_of(e.node)), tfn, e.data['tf'] or 'not reset on this path', cfn,
+                         e.data['cf'] or 'not reset on this path'),
+                      "an empty scheduler must report success and no cause: the diagnosis of a previous run of the "
+                      "same object (it failed, was emptied, and is run again) must not survive", trace(e.st))
             continue
         if cname not in want:
             rep.fail(rule, site, fn, "`%s` on a path whose cause cannot be told" % src(stmt_of(e.node)),
